@@ -8,7 +8,7 @@
 use super::*;
 use crate::verif::refmodel::*;
 
-//@ h=k_sse2_lane props=C02,C07,C17 cfgs=K6 tier=q t=900 | funcs: x86_sse2::packed_distance_as_u16x8 | bound: all pairs of 128-bit vectors, symbolic lane: 16-bit lane l == reference distance of exactly bytes 2l, 2l+1 (no leak between lanes), <= 48 | stubs: packed add/sub/mullo intrinsics -> lane-wise wrapping models (Intel pseudo-code)
+//@ h=k_sse2_lane props=C02,C07,C17,C08 cfgs=K6 tier=q t=900 | funcs: x86_sse2::packed_distance_as_u16x8 | bound: all pairs of 128-bit vectors, symbolic lane: 16-bit lane l == reference distance of exactly bytes 2l, 2l+1 (no leak between lanes), <= 48 | stubs: packed add/sub/mullo intrinsics -> lane-wise wrapping models (Intel pseudo-code)
 #[kani::proof]
 #[kani::stub(core::arch::x86_64::_mm_add_epi32, crate::verif::simdstubs::m_add_epi32)]
 #[kani::stub(core::arch::x86_64::_mm_sub_epi32, crate::verif::simdstubs::m_sub_epi32)]
@@ -122,9 +122,9 @@ macro_rules! simd_struct {
         }
     };
 }
-//@ h=k_sse2_d32 props=C02,C07,C17 cfgs=K6 tier=q t=900 native=native_k_sse2_extremes | funcs: x86_sse2::distance_32 (unaligned loads, accumulation, horizontal sum) | bound: all pairs of 32-byte bodies and ALL lane values up to the lane maximum 48: loads exactly the consecutive 16-byte chunks of both bodies in order, result == sum of all lanes | stubs: packed add/sub/mullo intrinsics -> lane-wise wrapping models (Intel pseudo-code); the SSE2 kernel -> logging stub returning arbitrary bounded lanes (kernel itself: k_sse2_lane)
+//@ h=k_sse2_d32 props=C02,C07,C17,C08 cfgs=K6 tier=q t=900 native=native_k_sse2_extremes | funcs: x86_sse2::distance_32 (unaligned loads, accumulation, horizontal sum) | bound: all pairs of 32-byte bodies and ALL lane values up to the lane maximum 48: loads exactly the consecutive 16-byte chunks of both bodies in order, result == sum of all lanes | stubs: packed add/sub/mullo intrinsics -> lane-wise wrapping models (Intel pseudo-code); the SSE2 kernel -> logging stub returning arbitrary bounded lanes (kernel itself: k_sse2_lane)
 simd_struct!(k_sse2_d32, distance_32, 32, 2);
-//@ h=k_sse2_d64 props=C02,C07,C17 cfgs=K6 tier=q t=900 native=native_k_sse2_extremes | funcs: x86_sse2::distance_64 | bound: all pairs of 64-byte bodies and all bounded lane values: right chunks in order, result == sum of all lanes (no lane overflow) | stubs: packed add/sub/mullo intrinsics -> lane-wise wrapping models (Intel pseudo-code); the SSE2 kernel -> logging stub
+//@ h=k_sse2_d64 props=C02,C07,C17,C08 cfgs=K6 tier=q t=900 native=native_k_sse2_extremes | funcs: x86_sse2::distance_64 | bound: all pairs of 64-byte bodies and all bounded lane values: right chunks in order, result == sum of all lanes (no lane overflow) | stubs: packed add/sub/mullo intrinsics -> lane-wise wrapping models (Intel pseudo-code); the SSE2 kernel -> logging stub
 simd_struct!(k_sse2_d64, distance_64, 64, 4);
 
 /// Native confirmation for the structure lemmas (their counterexamples are lane values of the
